@@ -135,6 +135,30 @@ pub fn minimise(run: &IoRun, v: &Violation) -> (IoRun, Violation, Value) {
             }
             false
         });
+        // debris next to the target, one piece at a time
+        let mut k = cur.ops[oi].litter.len();
+        while k > 0 {
+            k -= 1;
+            attempt!(|op: &mut IoOp| {
+                if k < op.litter.len() {
+                    op.litter.remove(k);
+                    true
+                } else {
+                    false
+                }
+            });
+        }
+        // a crash as early as possible
+        if let Some(k0) = cur.ops[oi].crash_at {
+            for k in 0..k0 {
+                if attempt!(|op: &mut IoOp| {
+                    op.crash_at = Some(k);
+                    true
+                }) {
+                    break;
+                }
+            }
+        }
         attempt!(|op: &mut IoOp| op.pad_to.take().is_some());
         attempt!(|op: &mut IoOp| {
             let c = op.via_convert;
